@@ -46,6 +46,7 @@ LEDGER = {
                     [M("ESDTNFTTransfer,MultiESDTNFTTransfer,create,flags", ptoks=("4e",), pshards=(0, 1), freeze=(), accsample=2), M("create,metaops,ESDTNFTTransfer,nftflags,flags", accsample=4), M("ESDTTransfer,MultiESDTNFTTransfer,flags,mintburn,issue", freeze=("u0a", "u1a"), pshards=(0, 1), supply=3, accsample=5)]),
                 need=dict(unflagged_ok=5, frozen_rej=3, paused_rej=3, flag_ok=10, refund_ok=1)),
     "C05": dict(profile="kv", preds=["P05_Protected", "P05_KVExact", "P05_Frame"],
+                extra_runs=[("transfer", [], 0.4)],      # the frame condition under transfer-heavy histories (alias splits, multi-byte nonces)
                 mc=([M("kv,ESDTTransfer,acct")],
                     [M("kv,ESDTTransfer,acct"), M("kv,ESDTNFTTransfer,create,flags,handover", hs=("u0a", "u1a"), accsample=2)]),
                 need=dict(kv_ok=10, kv_prot_rej=5, tok_ok=5)),
@@ -83,7 +84,7 @@ LEDGER = {
     "C15": dict(profile="mixed", preds=["WellFormed", "SysClean", "NoNegative"],
                 mc=([M("ESDTTransfer,ESDTNFTTransfer,create,handover"), M("ESDTTransfer,flags,mintburn,issue", supply=3)],
                     [M("ESDTTransfer,ESDTNFTTransfer,create,handover"), M("ESDTTransfer,flags,mintburn,issue,roles", supply=3, accsample=6), M("ESDTTransfer,issue,ESDTNFTTransfer,MultiESDTNFTTransfer,mintburn,create,handover", hs=("u0a", "u1a"))]),
-                extra_runs=[("nonce", [], 0.3), ("transfer", [], 0.3)],
+                extra_runs=[("nonce", [], 0.3), ("transfer", [], 0.3), ("roles", [], 0.3)],
                 need=dict(tok_ok=10, supply_ok=10, flag_ok=5, create_ok=5)),
     "C16": dict(profile="gas", flags=["-gassweep"], preds=["P16_Price", "P16_ProbePrice", "P16_Charged"],
                 mc=([M("sched,ESDTTransfer,kv,create,ESDTNFTTransfer,MultiESDTNFTTransfer", gas=(60, 1000), hs=("u0a", "u1a"), rejected=False, accsample=4)],
